@@ -48,7 +48,7 @@ m = {
  "hooks": {"guard": "verif (cargo feature of the avt crate; off by default)",
            "enable": "harness/Cargo.toml depends on avt = { path = \"/repo\", features = [\"verif\"] }; every check rebuilds the harness (cargo build --release --offline) against /repo's working tree",
            "baseline_off_cmd": "cd /repo && cargo test --workspace --no-fail-fast --offline",
-           "source_commits": ["de0bd03"], "add_only": True},
+           "source_commits": ["de0bd03", "d3c9f5f"], "add_only": True},
  "engines": [{"name": "tla-conformance", "path": "/verif/check", "serves_properties": [p["id"] for p in props],
               "kind_free_text": "Python orchestrator (tools/checklib.py, tools/plans.py): Rust harness (drivers, parser sweep, stress, replay) -> ndjson traces -> TLC trace validation (spec/Trace.tla); TLC bounded models (spec/MC*.tla, MC_*.cfg) whose transitions are replayed on the real code"}],
  "checks": checks,
